@@ -470,7 +470,8 @@ def _lint(ctx, prop):
         nb, nnb = lint.rule_NB1(ctx, files)
         zq, nzq = lint.rule_ZQ1(ctx, files)
         prt, nprt = lint.rule_PRT1(ctx, files)
-        out += [sw, ov, n1, d3, cp, nb, zq, prt]
+        tw, ntw = lint.rule_TW1(ctx, files)
+        out += [sw, ov, n1, d3, cp, nb, zq, prt, tw]
     return out
 
 
